@@ -152,6 +152,40 @@ def generate(rng, tier, pre):
                         add("pubhex", m)
                 if name == "der":
                     add("derhex", b.hex().encode())
+    # 2a. every value of the first and of the last byte (tag / header / version / flag bytes) of each valid sample
+    for name, lst in samples.items():
+        for b in lst[:(1 if q else 3)]:
+            for dec in route.get(name, []):
+                extra = ["0"] if name == "ecies_nopk" else (["1"] if name == "ecies" else None)
+                if not (0 < len(b) <= 1000):
+                    continue
+                for v in range(256):
+                    add(dec, bytes([v]) + b[1:], extra)
+                    if not q or v % 4 == 0 or v in (0x7f, 0x81, 0xff, 0x41, 0x42, 0x43, 0xc1, 0xc2, 0xc3):
+                        add(dec, b[:-1] + bytes([v]), extra)
+    # 2a'. text decoders on non-ASCII text: multi-byte UTF-8 characters inserted at every position of valid texts
+    #      (byte-offset arithmetic on strings - split_at, slicing by a fixed length - panics off a character boundary)
+    texts = {"template": ["OP_DATA=20", "OP_DATA>=3 OP_DATA<=5", "OP_DUP OP_HASH160 OP_PUBKEYHASH OP_EQUALVERIFY OP_CHECKSIG",
+                          "OP_DATA>2 OP_DATA<9 OP_SIG OP_PUBKEY", "00ff OP_1 OP_RETURN"],
+             "asm": ["OP_1 OP_IF 00ff OP_ELSE OP_2 OP_ENDIF", "0 OP_RETURN 6a6b", "OP_PUSHDATA1 02 beef"],
+             "path_xprv": ["m/0'/1/2h"], "path_xpub": ["m/0/1/2"], "privhex": ["11" * 32], "derhex": ["3006020101020101"],
+             "json_tx": ['{"version":1,"inputs":[],"outputs":[],"n_locktime":0}'], "tx_hex": ["01000000000000000000"]}
+    for name in ("wif", "xprv", "xpub", "addr"):
+        for b in samples.get(name, [])[:1]:
+            texts.setdefault(name, []).append(b.decode("latin-1"))
+    for b in samples.get("pub", [])[:1]:
+        texts.setdefault("pubhex", []).append(b.hex())
+    uni = ["\u00e9", "\u2265", "\u2028", "\U0001F600", "\u0301", "\u00a0"]
+    for dec, lst in texts.items():
+        for t in lst:
+            pos = list(range(len(t) + 1))
+            if q and len(pos) > 24:
+                pos = sorted(set(pos[:14] + pos[-6:] + rng.sample(pos, 6)))
+            for i in pos:
+                for u in (uni if not q else [uni[(i + k) % len(uni)] for k in range(2)]):
+                    add(dec, (t[:i] + u + t[i:]).encode("utf-8"))
+                    if i < len(t):
+                        add(dec, (t[:i] + u + t[i + 1:]).encode("utf-8"))
     # 2b. Base58Check strings with a VALID checksum over payloads of every length (incl. the empty payload) and
     #     plausible version bytes: the length / slice arithmetic behind the checksum test must not panic either
     for n in list(range(0, 40)) + [45, 72, 73, 74, 77, 78, 79, 81, 82, 90]:
